@@ -627,7 +627,7 @@ def _main(prop, tier, seed, replay, tmpdir, t0):
     oracle_fails = [(i, c) for i, c in fails if prop.CODES.get(c, ("oracle", ""))[0] == "oracle"]
     model_fails = [(i, c) for i, c in fails if prop.CODES.get(c, ("oracle", ""))[0] == "model"]
     reported_sigs = set()
-    for i, code in oracle_fails[:40]:
+    for i, code in oracle_fails:  # every failure is classified: a crowd of known findings must not hide a new one
         kf = match_known(prop_id, cases[i], obs[i], code)
         if kf is not None:
             if kf["signature"] not in reported_sigs:
